@@ -164,7 +164,7 @@ def coq_res(o, f):
 ALPHA_PLAIN = "abcxyz XY09.,-_[];m{}%"      # incl. characters that mean something to str.format / %-formatting
 ALPHA_CTRL = "\n\t\r\x00\x07"
 ALPHA_WIDE = "Ｅ中한"
-ALPHA_COMB = "̀́\ufe0f\u200d\ufe0e"      # combining marks, variation selectors, zero-width joiner
+ALPHA_COMB = "̀́\ufe0f\u200d\ufe0e\u0902\u0e34"      # combining marks, variation selectors, zero-width joiner, zero-width marks of combining class 0 (Devanagari anusvara, Thai sara i)
 ALPHA_OTHER = "é☃\U0001f600﻿\udc80\ud800"      # incl. lone surrogates (what surrogateescape-decoded file names contain)
 
 
@@ -204,7 +204,7 @@ def rand_big_runs(rng, alphabet=None, allow_false=True):
     if alphabet is None:
         alphabet = ALPHA_PLAIN
     if rng.random() < 0.5:
-        n = rng.choice([17, 18, 24, 32, 33, 48])
+        n = rng.choice([17, 18, 24, 32, 33, 48, 65, 66, 70, 129, 130])
         return [["".join(rng.choice(alphabet) for _ in range(rng.choice([0, 1, 1, 2, 3]))),
                  list(rand_atts(rng, allow_false))] for _ in range(n)]
     long_len = rng.choice([65, 100, 127, 128, 129, 255, 256, 257, 300, 511, 512, 513, 700])
